@@ -48,6 +48,10 @@ def run(ctx):
         ctx.guard("encoder-closure" + tag, closures, ctx, crate, crs, tag)
         ctx.guard("fresh-variables" + tag, fresh, ctx, crate, crs, tag)
         ctx.guard("registration" + tag, registration, ctx, crate, crs, tag)
+        # the trackers and the variable map live exactly as long as the clause database (per solve): a tracker that outlives the
+        # clauses it emitted reports "already tracked" for candidates whose forbid clauses no longer exist (shared with C13)
+        import c13
+        ctx.guard("state-reset" + tag, c13.state_reset, ctx, crate, tag)
 
 
 def _field_of_recv(b, t, argi=0):
